@@ -87,11 +87,14 @@ def letters(pal):
         "MX0": ("PMux", dict(rs=0.0, ig=0.0)),
         "IL0": ("ILoad", dict(ii=0.0, rt=5.0)),
         "PL0": ("PLoad", dict(pwr=0.0, pwrs=0.0)),
+        "RMq": ("Rectifier", dict(vdrop=0.0, rs=_r(0.05 * kr), ig=_r(1e-4 * ki), iq=_r(5e-3 * ki))),  # quiescent current ABOVE io+ig at light load
+        "CVq": ("Converter", dict(vo=_r(3.3 * kv), eff=_r(0.9 + de), iq=_r(8e-3 * ki))),
+        "ILu": ("ILoad", dict(ii=_r(1e-3 * ki))),
     })
     return L
 
 
-SIG_ZERO = (["RL0", "VL0", "CVe", "LRe", "PS0", "RM0", "MX0", "CVc"], ["IL0", "PL0", "IL", "RO"])
+SIG_ZERO = (["RL0", "VL0", "CVe", "LRe", "PS0", "RM0", "MX0", "CVc", "RMq", "CVq"], ["IL0", "PL0", "IL", "RO", "ILu"])
 SIG_FULL = (["RL", "VLc", "VL1", "VL2", "CVc", "CV1", "CV2", "CVb", "CVi", "LRc", "LR1", "LR2", "LRd", "PSc", "PS1",
              "RDc", "RD1", "RMc", "RM1", "MX"], ["PL", "PLx", "IL", "ILx", "RO", "ROx"])
 SIG_MID = (["RL", "VL1", "CVc", "CV2", "LRc", "LRd", "PSc", "RDc", "RMc", "MX"], ["PL", "ILx", "RO"])
